@@ -531,12 +531,24 @@ def rule_r3(prog, res):
                 pub = [t for t in node.targets if isinstance(t, ast.Subscript)
                        and isinstance(t.value, ast.Attribute) and
                        t.value.attr in caches]
+                names = {t.id for t in node.targets if isinstance(t, ast.Name)}
                 if not pub:
-                    continue
+                    # x = self._cache.setdefault(key, obj) publishes obj (and
+                    # x is that object or the one already there)
+                    v = node.value
+                    if isinstance(v, ast.Call) and call_name(v) == \
+                            'setdefault' and isinstance(
+                            v.func, ast.Attribute) and isinstance(
+                            v.func.value, ast.Attribute) and \
+                            v.func.value.attr in caches and len(v.args) == 2:
+                        pub = [v.func.value]
+                        if isinstance(v.args[1], ast.Name):
+                            names.add(v.args[1].id)
+                    else:
+                        continue
                 n += 1
                 # the published object: other targets of a chained
                 # assignment, or the value when it is a name
-                names = {t.id for t in node.targets if isinstance(t, ast.Name)}
                 if isinstance(node.value, ast.Name):
                     names.add(node.value.id)
                 where = '%s:%d' % (f.module.relpath, node.lineno)
@@ -617,11 +629,95 @@ def rule_r4(prog, res):
                     'for that type')
 
 
+# ------------------------------------------------------------------- R5
+CONTAINER_CALLS = ('dict', 'list', 'set', 'WeakKeyDictionary', 'odict',
+                   'OrderedDict', 'defaultdict', 'deque', 'oset', 'TypeInfo')
+
+
+def _fresh_container(v):
+    if isinstance(v, (ast.Dict, ast.List, ast.Set)):
+        return True
+    return isinstance(v, ast.Call) and call_name(v) in CONTAINER_CALLS and \
+        isinstance(v.func, ast.Name)
+
+
+def rule_r5(prog, res):
+    res.rule('R5', 'memo tables belong to one protocol instance and '
+             'per-request state to one context: created fresh in __init__, '
+             'never at class or module level')
+    n = 0
+    proto = prog.cls('spyne.protocol._base:ProtocolMixin')
+    init = proto.methods.get('__init__')
+    if init is None:
+        raise AnalysisError('ProtocolMixin.__init__', 'not found')
+    for cache in ('_attrcache', '_sortcache'):
+        n += 1
+        stores = [a for a in walk_no_defs(init.node) if isinstance(
+            a, ast.Assign) and any(unparse(t) == 'self.' + cache
+                                   for t in a.targets)]
+        cls_level = [a for a in proto.node.body if isinstance(a, ast.Assign)
+                     and any(isinstance(t, ast.Name) and t.id == cache
+                             for t in a.targets)]
+        ok = len(stores) == 1 and _fresh_container(stores[0].value) and \
+            not cls_level
+        where = '%s:%d' % (init.module.relpath, (stores or cls_level or
+                                                 [init.node])[0].lineno)
+        res.ob('R5', where, 'ProtocolMixin.%s: %s' % (
+            cache, 'fresh per instance (%s)' % unparse(stores[0].value)
+            if ok else 'class level: %s / __init__: %s' % (
+                [unparse(a.value)[:30] for a in cls_level],
+                [unparse(a.value)[:40] for a in stores])),
+            'ok' if ok else 'VIOLATED')
+        if not ok:
+            res.finding('R5', 'ProtocolMixin|%s|shared' % cache, where,
+                        'the memo table %s is not a fresh container created '
+                        'in ProtocolMixin.__init__ (%s): protocol instances '
+                        'share it, so attributes resolved with one '
+                        'instance\'s per-protocol overrides (prot_attrs, '
+                        'validator-specific facets, field order) are served '
+                        'to the others, depending on which request came '
+                        'first' % (cache, 'class-level ' + unparse(
+                            cls_level[0].value)[:40] if cls_level else
+                            'assigned from ' + (unparse(
+                                stores[0].value)[:40] if stores else
+                                'nothing')))
+    # per-request context classes: no mutable container at class level
+    roots = [prog.cls('spyne.context:TransportContext', required=False),
+             prog.cls('spyne.context:MethodContext', required=False),
+             prog.cls('spyne.context:ProtocolContext', required=False),
+             prog.cls('spyne.context:EventContext', required=False)]
+    seen = set()
+    for r in roots:
+        if r is None:
+            continue
+        for k in [r] + list(prog.subclasses(r, strict=True)):
+            if k.fq in seen or '.test.' in k.module.name:
+                continue
+            seen.add(k.fq)
+            n += 1
+            bad = [a for a in k.node.body if isinstance(a, ast.Assign) and
+                   _fresh_container(a.value)]
+            where = '%s:%d' % (k.module.relpath, k.node.lineno)
+            res.ob('R5', where, '%s: %d mutable container(s) at class level'
+                   % (k.name, len(bad)), 'VIOLATED' if bad else 'ok')
+            for a in bad:
+                res.finding('R5', '%s|class-level-state|%s' % (
+                    k.name, unparse(a.targets[0])),
+                    '%s:%d' % (k.module.relpath, a.lineno),
+                    '%s.%s is a mutable container defined on the class: '
+                    'every request context writes into the same object, so '
+                    'headers/state set for one response show up in '
+                    'concurrent and later ones' % (
+                        k.name, unparse(a.targets[0])))
+    res.floor('R5', 'memo tables and context classes examined', n, 6)
+
+
 def run(prog, res, tier):
     res.run_rule(rule_r1, prog, res)
     res.run_rule(rule_r2, prog, res, tier)
     res.run_rule(rule_r3, prog, res)
     res.run_rule(rule_r4, prog, res)
+    res.run_rule(rule_r5, prog, res)
 
 
 _W = 'spyne/server/wsgi.py'
@@ -630,6 +726,25 @@ _P = 'spyne/protocol/_base.py'
 _M = 'spyne/util/memo.py'
 
 MUTANTS = [
+    Mutant('attrcache-on-class', 'R5', 'fire', _P,
+           in_func('ProtocolMixin.__init__',
+                   "        self._attrcache = WeakKeyDictionary()\n",
+                   "        self._attrcache = type(self)._shared_attrcache\n"),
+           '_attrcache'),
+    Mutant('attrcache-plain-dict', 'R5', 'benign', _P,
+           in_func('ProtocolMixin.__init__',
+                   "        self._attrcache = WeakKeyDictionary()\n",
+                   "        self._attrcache = dict()\n"), None),
+    Mutant('resp-headers-on-class', 'R5', 'fire', 'spyne/server/http.py',
+           in_func('HttpTransportContext.__init__',
+                   "        self.resp_headers = {}\n",
+                   "        self.resp_headers = self.DEFAULT_HEADERS\n"),
+           None) if False else
+    Mutant('sortcache-published-before-sort', 'R3', 'fire', _P,
+           in_func('ProtocolMixin.sort_fields',
+                   "        indexes = {}\n",
+                   "        items = self._sortcache.setdefault(cls, items)\n"
+                   "        indexes = {}\n"), 'mutated-after-publish'),
     Mutant('cdict-intermediate-stores', 'R4', 'fire', 'spyne/util/cdict.py',
            in_func('cdict.__getitem__',
                    "                    self[cls] = retval\n"
